@@ -36,6 +36,10 @@ type runResult struct {
 	Err   error
 }
 
+// One file-system source for all runs: storage.NewLocalEngine builds an S3
+// client (loads the CA bundle, ~5 ms) and is stateless for reader inputs.
+var fileSource = data.NewSource(storage.NewLocalEngine(), nil)
+
 func parseSortKey(s string) order.SortKeys {
 	if s == "" {
 		return nil
@@ -69,7 +73,7 @@ func runProgram(ctx context.Context, program string, o runOpts, inputs ...string
 	}
 	rctx := runtime.NewContext(ctx, zctx)
 	defer rctx.Cancel()
-	job, err := compiler.NewJob(rctx, seq, data.NewSource(storage.NewLocalEngine(), nil), nil)
+	job, err := compiler.NewJob(rctx, seq, fileSource, nil)
 	if err != nil {
 		return runResult{Err: fmt.Errorf("analyze: %w", err)}
 	}
